@@ -188,6 +188,25 @@ ADDED2 = {
 }
 
 
+ADDED3 = {
+    "C01": " Round 6: the ruyaml re-writer of the comments dump keeps quotes; every dump_using_format call of the parser class is preceded by the serialisation step on every path (except non-namespace values); skip_default removes an entry only when the whole value equals the default, recurses only below non-leaf keys and with the class's own parser inside init_args; steps applied to the defaults do not insist on a chosen subcommand; named yaml classes exist.",
+    "C02": " Round 6: typing_extensions' object is used whenever available; a hint rebuilt after forward-reference resolution keeps every argument.",
+    "C03": " Round 6: evaluators of annotation/source text (get_type_hints, exec) run under a catch-all or in a reviewed propagator (R8); the dict check follows the last assignment before a loaded config is applied, sub-command settings and the config-file key are stored only with the shape their consumers dereference (R9); environment switches are compared case-insensitively (R10); NUL is rejected before the os probes of Path and the jsonnet binding's ValueError is converted (R11).",
+    "C04": " Round 6: os.environ stands in only when no environment mapping was given (identity test).",
+    "C05": " Round 6: the clash-mark sanitiser is applied to key components, not to concatenations; appends are adapted under the parser's load mode.",
+    "C09": " Round 6: a pending print_config request is discarded on every exit from the argument loop and cannot be served by a nested parse on the handed-in parser; the resolver lists shared with PyYAML's classes are replaced, never edited in place.",
+    "C10": " Round 6: a module variable is named for an object only by identity.",
+    "C11": " Round 6: as_dict passes every value through one recursive converter with type-only arm conditions and unfiltered, fully mapped comprehensions; update carries empty branches over; __contains__ never raises.",
+    "C12": " Round 6: the list of added arguments is never extended by iterating over itself; has_subtypes covers all container tables.",
+    "C14": " Round 6: the inherited-__new__ test keeps its quantifier; default instances are converted before the kwargs expansion; the public instantiate_classes converts a dict argument.",
+    "C15": " Round 6: init_args are copied structurally, never deep-copied, between link application and construction (linked objects keep their identity).",
+    "C17": " Round 6: a subcommand chosen in an environment mapping reads its settings from that mapping.",
+    "C18": " Round 6: the overwrite probe looks at the resolved path.",
+    "C19": " Round 6: file:// normalisation is unconditional; Path.open / get_content use the resolved path; resolve_relative_path pops unconditionally; a file's content is loaded inside its directory.",
+    "C20": " Round 6: a custom serializer hands out a narrowed number only under a read-back equality with its deserializer, which reads floats through their text; the ActionOperators registry key agrees with the creation.",
+}
+
+
 def main():
     checks = []
     for pid in ALL:
@@ -198,6 +217,8 @@ def main():
             tech, text = tech + ADDED[pid][0], text + ADDED[pid][1]
         if pid in ADDED2:
             text = text + ADDED2[pid]
+        if pid in ADDED3:
+            text = text + ADDED3[pid]
         checks.append(
             {
                 "property_id": pid,
